@@ -47,6 +47,12 @@ Theorem C18_get_err : forall q im, m_settings im = Some q -> m_reply_ok im = tru
   forall m t txt, m_empty im = true -> m_ans im = AErr txt ->
   on_message m im t = Some (m, respond im txt CError, false).
 Proof. exact e2e_get_err. Qed.
+(* a leaf whose JSON value does not fit the device's transmit buffer: the same Error path, hence (C18_error)
+   an exception carrying the device's text *)
+Theorem C18_get_large : forall q im, m_settings im = Some q -> m_reply_ok im = true ->
+  forall m t txt, m_empty im = true -> m_ans im = AGetLarge txt ->
+  on_message m im t = Some (m, respond im txt CError, false).
+Proof. exact e2e_get_large. Qed.
 (* list: accepted when idle and within the cache limits, and answered over any schedule of
    update() calls that lets it finish by exactly the leaf paths below the node, in iteration order *)
 Theorem C18_list_starts : forall rtp cdb q im, m_settings im = Some q -> m_reply_ok im = true ->
@@ -80,5 +86,6 @@ Print Assumptions C18_set_ok.
 Print Assumptions C18_error.
 Print Assumptions C18_set_err.
 Print Assumptions C18_get_err.
+Print Assumptions C18_get_large.
 Print Assumptions C18_list_starts.
 Print Assumptions C18_list.
